@@ -126,6 +126,47 @@ def loader_samples(n: int):
     return out, meta
 
 
+def chars_lean(t: str) -> str:
+    return lean_list("Char.ofNat %d" % ord(ch) for ch in t)
+
+
+def text_samples(n: int):
+    """parser: `readProgram` on generated ASCII texts vs the real `read_program`"""
+    from harness import comp_text
+    import program_utils
+
+    out, meta = [], []
+    case = 0
+    while len(meta) < n and case < 20000:
+        rng = core.case_rng("kernel-text", case)
+        case += 1
+        lines = comp_text.gen_raw_lines(rng) if case % 3 == 0 else None
+        if lines is None:
+            gen = comp_text.gen_program_gen(rng)
+            ans = core.driver().ask({"op": "progtext", "gen": gen})
+            lines = ans["lines"]
+        if len(lines) > 8 or sum(len(x) for x in lines) > 160 or any(ord(ch) > 127 for x in lines for ch in x):
+            continue
+        try:
+            res = program_utils.read_program(list(lines))
+            want = ".ok " + lean_list(
+                f"⟨{lean_list(chars_lean(x) for x in i.sources)}, {chars_lean(i.destination)}, {chars_lean(i.name)}, {i.line}⟩" for i in res)
+            outcome = "ok"
+        except program_utils.CodeError as e:
+            msg = str(e)
+            if msg.startswith("No operands"):
+                want = f".error (.noOperands {e.line} {chars_lean(e.instr)})"
+            else:
+                k = int(msg.split()[1])
+                want = f".error (.emptyOperand {e.line} {chars_lean(e.instr)} {k})"
+            outcome = "CodeError"
+        except Exception:  # noqa: BLE001
+            continue
+        out.append(f"/-- parser sample {len(meta)} -/\nexample : parseResultEq (Program.readProgram {lean_list(chars_lean(x) for x in lines)}) ({want}) = true := by decide\n")
+        meta.append({"case": case - 1, "lines": len(lines), "outcome": outcome})
+    return out, meta
+
+
 def main(n: int = 16) -> int:
     core.install_repo()
     core.ensure_built(["ProcSim.Model.Canon"])
@@ -147,6 +188,9 @@ def main(n: int = 16) -> int:
         out.append(sample_lean(len(meta), inp, impl))
         meta.append({"case": case - 1, "family": family, "units": nunits, "instructions": len(inp["prog"]),
                      "outcome": impl["outcome"], "cycles": len(impl["table"])})
+    if os.environ.get("VERIF_KERNEL_COMPONENT", "sim") == "text":
+        tout, meta = text_samples(n)
+        out = out[:4] + tout
     if os.environ.get("VERIF_KERNEL_COMPONENT", "sim") == "loader":
         lout, meta = loader_samples(n)
         out = out[:4] + lout
